@@ -2,27 +2,39 @@
   Helper lemmas for C07 (compile-time gate). Statements used by JP/Props/C07.lean.
 -/
 import JP.Typing
+import JP.Lemmas.TypingAux
 namespace JP.Lemmas
 open JP JP.Typing
 
 theorem gate_filter_iff_wt (tbl : FuncTable) (ht : StdTable tbl) (e : Expr)
     (h1 : Rfc.stdExpr e = true) (h2 : cmpAtomic e = true) (h3 : wfDeep e = true) :
-    (gateExpr tbl e && !nonLogical tbl e) = Rfc.wtLogical e := by
-  sorry
+    (gateExpr tbl e && !nonLogical tbl e) = Rfc.wtLogical e :=
+  gL tbl ht e h1 h2 h3
 
 theorem gate_segs_iff_wt (tbl : FuncTable) (ht : StdTable tbl) (segs : List Seg)
     (h1 : Rfc.stdSegs segs = true) (h2 : cmpAtomicSegs segs = true) (h3 : wfDeepSegs segs = true) :
-    gateSegs tbl segs = Rfc.wtSegs segs := by
-  sorry
+    gateSegs tbl segs = Rfc.wtSegs segs :=
+  gSegs tbl ht segs h1 h2 h3
 
 theorem unknown_function_rejected (tbl : FuncTable) (name : Str) (args : List Expr)
     (h : lookupFn tbl name = none) : gateExpr tbl (.func name args) = false := by
-  sorry
+  simp [gateExpr, h]
+
+theorem argsOk_length (tbl : FuncTable) : ∀ (tys : List Ty) (args : List Expr),
+    argsOk tbl tys args = true → args.length = tys.length
+  | [], [], _ => rfl
+  | [], _ :: _, h => by simp [argsOk] at h
+  | _ :: _, [], h => by simp [argsOk] at h
+  | t :: ts, a :: as, h => by
+    simp only [argsOk, Bool.and_eq_true] at h
+    simp [argsOk_length tbl ts as h.2]
 
 theorem wrong_arity_rejected (tbl : FuncTable) (name : Str) (args : List Expr) (tys : List Ty) (r : Ty)
     (h : lookupFn tbl name = some (tys, r)) (hl : args.length ≠ tys.length) :
     gateExpr tbl (.func name args) = false := by
-  sorry
+  cases hk : argsOk tbl tys args with
+  | false => simp [gateExpr, h, hk]
+  | true => exact absurd (argsOk_length tbl tys args hk) hl
 
 theorem value_result_as_test_rejected (tbl : FuncTable) (name : Str) (args : List Expr) (tys : List Ty)
     (h : lookupFn tbl name = some (tys, .value)) (e : Expr) :
@@ -32,30 +44,35 @@ theorem value_result_as_test_rejected (tbl : FuncTable) (name : Str) (args : Lis
     gateExpr tbl (.infix e .and (.func name args)) = false ∧
     gateExpr tbl (.infix (.func name args) .or e) = false ∧
     gateExpr tbl (.infix e .or (.func name args)) = false := by
-  sorry
+  have hn : nonLogical tbl (.func name args) = true := by simp [nonLogical, retType, h]
+  refine ⟨?_, ?_, ?_, ?_, ?_, ?_⟩ <;> simp [gateSel, gateExpr, hn, isLogicalOp]
 
 theorem uncompared_literal_rejected (tbl : FuncTable) (lit : Expr) (hl : isLiteralOrNil lit = true) (e : Expr) :
     gateSel tbl (.filter lit) = false ∧ gateExpr tbl (.not lit) = false ∧
     gateExpr tbl (.infix lit .and e) = false ∧ gateExpr tbl (.infix e .or lit) = false := by
-  sorry
+  have hn : nonLogical tbl lit = true := by simp [nonLogical, hl]
+  refine ⟨?_, ?_, ?_, ?_⟩ <;> simp [gateSel, gateExpr, hn, isLogicalOp]
 
 theorem nonsingular_operand_rejected (tbl : FuncTable) (q : List Seg) (hq : Rfc.singularSegs q = false)
     (op : CmpOp) (hop : isComparisonOp op = true) (e : Expr) :
     gateExpr tbl (.infix (.self q) op e) = false ∧ gateExpr tbl (.infix e op (.self q)) = false ∧
     gateExpr tbl (.infix (.root q false) op e) = false := by
-  sorry
+  have h1 : nonComparable tbl (.self q) = true := by simp [nonComparable, isPath, pathSegs, hq]
+  have h2 : nonComparable tbl (.root q false) = true := by simp [nonComparable, isPath, pathSegs, hq]
+  refine ⟨?_, ?_, ?_⟩ <;> simp [gateExpr, h1, h2, hop]
 
 theorem logical_result_operand_rejected (tbl : FuncTable) (name : Str) (args : List Expr) (tys : List Ty)
     (h : lookupFn tbl name = some (tys, .logical)) (op : CmpOp) (hop : isComparisonOp op = true) (e : Expr) :
     gateExpr tbl (.infix (.func name args) op e) = false ∧ gateExpr tbl (.infix e op (.func name args)) = false := by
-  sorry
+  have h1 : nonComparable tbl (.func name args) = true := by simp [nonComparable, isPath, h]
+  refine ⟨?_, ?_⟩ <;> simp [gateExpr, h1, hop]
 
 theorem range_gate (lo hi i : Int) : indexInRange lo hi i = true ↔ lo ≤ i ∧ i ≤ hi := by
-  sorry
+  simp [indexInRange]
 
 theorem slice_range_gate (lo hi : Int) (a b c : Option Int) :
     sliceInRange lo hi a b c = true ↔
       (∀ x, a = some x → lo ≤ x ∧ x ≤ hi) ∧ (∀ x, b = some x → lo ≤ x ∧ x ≤ hi) ∧ (∀ x, c = some x → lo ≤ x ∧ x ≤ hi) := by
-  sorry
+  cases a <;> cases b <;> cases c <;> simp [sliceInRange, indexInRange, and_assoc]
 
 end JP.Lemmas
